@@ -758,6 +758,9 @@ def apply_edit(world: World, project: dict, edit: list, ses: Session | None = No
         src, dst = world.abspath(edit[1]), world.abspath(edit[2])
         if src.exists():
             dst.parent.mkdir(parents=True, exist_ok=True)
+            if dst.exists():
+                # a directory moved there earlier: the user replaces it
+                shutil.rmtree(dst)
             os.rename(src, dst)
     elif kind == "touch":
         text = world.read(edit[1])
